@@ -69,8 +69,14 @@ Definition check_case (c : case_t) : bool :=
   direct_agrees c && match c_run c with Some r => run_agrees c r | None => true end.
 
 (* ---------------- the property, on the implementation's observation only ---------------- *)
+Fixpoint dedup (l : list string) : list string :=
+  match l with
+  | [] => []
+  | x :: r => if existsb (String.eqb x) r then dedup r else x :: dedup r
+  end.
+(* every peer that has a result or a signature in one of the two data, once *)
 Definition case_peers (c : case_t) : list string :=
-  map fst (d_trace (c_prev c)) ++ map fst (d_trace (c_cur c)) ++ keys (d_sigs (c_prev c)) ++ keys (d_sigs (c_cur c)).
+  dedup (map fst (d_trace (c_prev c)) ++ map fst (d_trace (c_cur c)) ++ keys (d_sigs (c_prev c)) ++ keys (d_sigs (c_cur c))).
 
 Definition equivocation (c : case_t) : bool :=
   existsb (fun p => incomparableb (Mof (c_prev c) p) (Mof (c_cur c) p)) (case_peers c).
